@@ -418,6 +418,7 @@ var c08Constructs = []string{
 	"plain call", "match with expression body", "match with block body", "return from inside a match block",
 	"next inside a function", "match in a loop with break/continue in block bodies", "call whose argument is a match",
 	"match with array pattern bindings",
+	"next (in a called function) leaving an expression-bodied match case", "break / continue (in a nested block-bodied match) leaving an expression-bodied match case",
 }
 
 const c08Prelude = `function rec(n) { if (n <= 0) { return 0 }
@@ -454,13 +455,17 @@ func c08Element(construct int, s string, loop bool) string {
 		return "for (i = 0; i < 3; i++) { r = match (i) { 0 => { continue }, 2 => { break }, k => k + " + s + " }\n" + obs("") + "}\n"
 	case 6:
 		return "r = f(match (" + s + ") { x => g(x) })\n" + obs("")
+	case 8:
+		return "r = match (" + s + ") { hx => h(hx) }\nprint \"unreachable\"\n"
+	case 9:
+		return "for (i = 0; i < 3; i++) { r = match (i) { ko => match (ko) { 0 => { continue }, 2 => { break }, ki => ki + " + s + " } }\n" + obs("") + "}\n"
 	default:
 		return "r = match ([" + s + ", 2]) { [1, b] => b, [a, b] => a + b }\n" + obs("")
 	}
 }
 
 func c08HistProgram(h *C08Hist) (prog string, input string, perElement int) {
-	if h.InLoop && h.Construct == 4 {
+	if h.InLoop && (h.Construct == 4 || h.Construct == 8) {
 		// `next` ends the rule, so there is no loop form of this construct
 		h.InLoop = false
 	}
